@@ -186,6 +186,27 @@ def build(prop, o, workdir):
     return gb, log
 
 
+def deepen(obls, tier, names=None, extra_defs=("VR_MAXDEPTH=2",), suffix="_depth2", timeout=900, object_bits=14, mem_gb=14):
+    """thorough tier: copies of scheduling-point obligations with a deeper bound (default: environment operations may
+    themselves be preempted once: nesting depth 2)."""
+    import copy
+    if tier != "thorough":
+        return []
+    out = []
+    for o in obls:
+        if names is not None and o.name not in names:
+            continue
+        d = copy.copy(o)
+        d.name = o.name + suffix
+        d.defs = [x for x in o.defs if not any(x.split("=")[0] == e.split("=")[0] for e in extra_defs)] + list(extra_defs)
+        d.timeout = timeout; d.object_bits = max(object_bits, o.object_bits or 0); d.mem_gb = mem_gb
+        d.tiers = ("thorough",)
+        d.desc = o.desc + "  [deeper bound: " + ", ".join(extra_defs) + "]"
+        d.bounds = (o.bounds + "; " if o.bounds else "") + ", ".join(extra_defs)
+        out.append(d)
+    return out
+
+
 RES_RE = re.compile(r"^\[(\S+)\] (.*): (SUCCESS|FAILURE|UNKNOWN|ERROR)\s*$")
 
 
